@@ -336,35 +336,32 @@ def r12_6(ctx, fx):
     ctx.anchor("R12.6", "mpsc::channel call sites in the notification protocol", n, 2, cfg=fx.cfg)
 
 
-def _positive(fn, fx, o, depth=0):
-    if depth > 10:
-        return False
-    k = o.get("k")
-    if k is not None:
-        if "cdef" in k:
-            v = fx.const(k["cdef"])
-            return isinstance(v, int) and v >= 1
-        return isinstance(k.get("v"), int) and k["v"] >= 1
-    p = o.get("m") or o.get("c")
-    if not p or len(p) != 1:
-        return False
-    ds = fn.defs().get(p[0], [])
-    if not ds:
-        return False
-    for node, kind, pl in ds:
-        if kind == "call":
-            c = fn.call_at(node)
-            if re.search(r"num::NonZero(<.*>)?::get$", c.name):
-                continue
-            if re.search(r"cmp::max$|Ord>?::max$", c.name) and any(_positive(fn, fx, a, depth + 1) for a in c.args):
-                continue
-            if re.search(r"cmp::min$|Ord>?::min$", c.name) and all(_positive(fn, fx, a, depth + 1) for a in c.args):
-                continue
-            return False
-        if kind == "assign" and pl["rv"]["r"] in ("use", "cast") and _positive(fn, fx, pl["rv"]["o"], depth + 1):
-            continue
-        return False
-    return True
+from common import positive as _positive  # noqa: E402
+
+
+def r12_7(ctx, fx):
+    """a closed stream delivers a prefix and nothing of it is delivered on a later stream: the connection handler forwards received
+    notifications to `notif_rx` and reports the close on `event_rx`; NotificationHandle::poll_next polls `event_rx` first, so the close
+    can overtake notifications that arrived before it.  Either (A) the branch that reports NotificationStreamClosed first drains the
+    closed peer's notifications out of `notif_rx` (a `try_recv` loop on every path to that return), or (B) `notif_rx` is polled before
+    `event_rx`.  Otherwise leftovers are delivered after the next NotificationStreamOpened as if sent on the new stream, or only a tail
+    of them survives the lazy discard (non-prefix)."""
+    fn = None
+    for k in fx.find(r"notification::handle::NotificationHandle as futures::Stream>::poll_next$"):
+        fn = fx.fn(k)
+    if fn is None:
+        ctx.anchor("R12.7", "NotificationHandle::poll_next", 0, 1, cfg=fx.cfg)
+        return
+    ctx.bodies.add((fx.cfg, fn.key))
+    closed = [n for n, _ in fn.aggregates(r"NotificationEvent$", "NotificationStreamClosed")]
+    ctx.anchor("R12.7", "poll_next: NotificationStreamClosed built", len(closed), 1, cfg=fx.cfg)
+    drains = [c.node for c in fn.calls(r"mpsc::(bounded::)?Receiver(<.*>)?::try_recv$") if ".notif_rx" in fn.recv(c)]
+    a = bool(drains) and all(n not in fn.reach([fn.entry], avoid=drains) for n in closed)
+    ev = [c.node for c in fn.calls(r"Receiver(<.*>)?::poll_recv$") if ".event_rx" in fn.recv(c)]
+    nt = [c.node for c in fn.calls(r"Receiver(<.*>)?::poll_recv$") if ".notif_rx" in fn.recv(c)]
+    b = bool(ev) and bool(nt) and all(e not in fn.reach([fn.entry], avoid=nt) for e in ev)
+    ctx.ob("R12.7", "poll_next/close-does-not-overtake-received-notifications", a or b, site=fn.site(closed[0]) if closed else fn.site(fn.entry), cfg=fx.cfg,
+           detail="(A) notif_rx drained before NotificationStreamClosed is returned: %s; (B) notif_rx polled before event_rx: %s" % (a, b))
 
 
 def run(ctx):
@@ -376,6 +373,7 @@ def run(ctx):
             r12_4(ctx, fx)
             r12_5(ctx, fx)
             r12_6(ctx, fx)
+            r12_7(ctx, fx)
             # "none is skipped / no duplicate" also rests on the framed substream every notification travels through: the flush
             # completeness and stash discipline of Substream::poll_flush (rule R04.4, stated in rules/C04.py) is evaluated here as well
             import C04
